@@ -57,9 +57,21 @@ def h04a1_pre(buf, off):
 
 # ---------------------------------------------------------------- H04a2 rdata from wire, then render
 
-def h04a2(buf: bytes) -> bool:
+TEXT_CHEAP = {"NS", "CNAME", "PTR", "DNAME", "NSAP-PTR", "TXT", "SPF", "AVC", "NINFO", "RESINFO", "WALLET", "HINFO", "X25", "ISDN", "RP",
+              "URI", "CAA", "MX", "KX", "RT", "AFSDB", "LP", "NSEC", "CSYNC", "APL", "OPENPGPKEY", "DHCID"}
+
+
+def h04a2(buf: bytes, pick: int) -> bool:
     """dns.rdata.from_wire for every type: FormError family only; what it returns renders to wire and text without a foreign exception."""
+    import harness.C02 as C02
+
     c, t = S("c"), S("t")
+    if S("pooled"):
+        with concrete():
+            pool = C02.pool_for(c, t, S("name"), S("lmin"))
+        buf = pool[pick]
+    if S("prefix"):
+        buf = bytes.fromhex(S("prefix")) + buf
     try:
         with step_budget(dns.wirebase.Parser, "seek", len(buf) + 4):
             rd = dns.rdata.from_wire(c, t, buf + b"\xaa", 0, len(buf))
@@ -67,7 +79,8 @@ def h04a2(buf: bytes) -> bool:
         return True
     hit("accepted")
     rd.to_wire()
-    if S("texty"):
+    if S("pooled") or S("name") in TEXT_CHEAP:
+        # (text of number-heavy types forks on every digit count; their text form is C05's subject)
         try:
             rd.to_text()
         except RENDER_OK:
@@ -75,23 +88,16 @@ def h04a2(buf: bytes) -> bool:
     return True
 
 
-def h04a2_pre(buf):
-    return len(buf) <= S("max")
+def h04a2_pre(buf, pick):
+    if S("pooled"):
+        return len(buf) == 0 and 0 <= pick < S("npool")
+    return len(buf) <= S("max") and pick == 0
 
 
 def h04a2_shards(tier):
-    out = []
-    with concrete():
-        for c, t, name in implemented():
-            if name in ("GPOS", "LOC", "AAAA", "WKS"):
-                continue  # float / IPv6 text conversions realize: covered through the C02 pools
-            L = lmin(c, t, name)
-            k = 1 if tier == "quick" else 2
-            if name in ("SOA", "TKEY", "TSIG", "RRSIG", "SIG", "A", "L32", "NID", "L64"):
-                k = 0
-            out.append({"c": c, "t": t, "name": name, "max": L + k, "texty": name in TEXTY and name not in ("A", "L32", "NID", "L64", "EUI48", "EUI64"),
-                        "_timeout": 300 if tier == "quick" else 1200, "_path_timeout": 60})
-    return out
+    import harness.C02 as C02
+
+    return C02.h02a_shards(tier)
 
 
 # ---------------------------------------------------------------- H04b message wire
@@ -248,7 +254,7 @@ def h04d(tok: str) -> bool:
         return True
     hit("accepted")
     rd.to_text()
-    rd.to_wire()
+    rd.to_wire(origin=EX)
     return True
 
 
@@ -319,7 +325,7 @@ HARNESSES = [
             bound="every buffer of <= 5 (7) octets, every offset incl. out-of-range ones; seek budget = termination", stubs=[], outside="longer buffers"),
     Harness("H04a2", h04a2, h04a2_pre, h04a2_shards, kind="universal",
             encodes=["dns.rdata.from_wire", "dns.rdata.from_wire_parser", "dns.exception.ExceptionWrapper", "dns.rdata.Rdata.to_text", "dns.rdata.Rdata.to_wire"],
-            bound="every implemented type except GPOS/LOC/AAAA/WKS (pooled in C02): every RDATA of <= Lmin+1 (+2) octets; to_text() additionally for the character-string / name types",
+            bound="the C02/H02a shard plan (every implemented type; pools for the text/float-converting types); to_wire() on every accepted value, to_text() for the pooled types and the character-string / name / bitmap types",
             stubs=["E1", "E2", "E3", "E4", "E5", "E12"], outside="longer RDATA; to_text of base64/hex-only types on symbolic content"),
     Harness("H04b", h04b, h04b_pre, h04b_shards, kind="universal",
             encodes=["dns.message.from_wire", "dns.message._WireReader.read", "dns.message._WireReader._get_question",
